@@ -58,6 +58,11 @@ func storeCallKind(c *ssa.CallCommon) string {
 func checkAuthnGate(r *Report, p *Prog) {
 	top := p.MustFunc("samlidp", "Server", "GetSession")
 	a := NewAnalysis(p)
+	// the steps GetSession is split into (look the user up, compare the password, load the session, test its expiry) are
+	// part of it: their outcomes are the outcomes of the store and bcrypt calls they make
+	a.Inline = func(f *ssa.Function) bool {
+		return inPkg(f, modPath+"/samlidp") && p.InLibrary(f) && f != top && (f.Object() == nil || !f.Object().Exported()) && (errIndex(f) >= 0 || isPredicate(f))
+	}
 	B := a.B
 	// GetSession with the helpers it is split into (one per way of obtaining a session, a constructor for the new
 	// session): every function of the region that returns a session is judged at its own returns, under the conditions
@@ -67,22 +72,25 @@ func checkAuthnGate(r *Report, p *Prog) {
 		res := f.Signature.Results()
 		return res.Len() >= 1 && typeIs(res.At(0).Type(), modPath, "Session")
 	}
-	for _, act := range rg.all {
+	// judged at the returns of GetSession itself: every session object that can reach one of them, under the conditions of
+	// the whole path it takes (the blocks that select it inside the helpers it comes through, and what the callers test
+	// after a helper handed it back)
+	_ = returnsSession
+	{
+		act := rg.top
 		fn := act.fn
-		if !returnsSession(fn) {
-			continue
-		}
 		fc := rg.Ctx(a, act)
 		fc.ensureConds()
 		r.Fn(p.FnName(fn))
-		implied := func(blk *ssa.BasicBlock, f *bddNode) bool { return B.Implies(fc.AbsCond(blk), f) }
-		// calls of interest: in this function or in the functions on the way to it
+		// calls of interest anywhere in the region
 		var cmp *ssa.Call
 		var cmpFC *FuncCtx
 		gets := map[string]*ssa.Call{} // "users" / "sessions" -> Store.Get call
 		getFC := map[string]*FuncCtx{}
-		for c := act; c != nil; c = c.parent {
+		for _, c := range rg.all {
 			cfc := rg.Ctx(a, c)
+			cfc.ensureConds()
+			r.Fn(p.FnName(c.fn))
 			for _, b := range c.fn.Blocks {
 				for _, in := range b.Instrs {
 					call, ok := in.(*ssa.Call)
@@ -120,169 +128,192 @@ func checkAuthnGate(r *Report, p *Prog) {
 			if isNilConst(v) {
 				continue
 			}
-			// forwarded from a helper of the region that returns a session: judged there
-			fwd := false
-			switch x := v.(type) {
-			case *ssa.Call:
-				if k := act.kids[x]; k != nil && returnsSession(k.fn) {
-					fwd = true
-				}
-			case *ssa.Extract:
-				if call, ok := x.Tuple.(*ssa.Call); ok {
-					if k := act.kids[call]; k != nil && returnsSession(k.fn) {
-						fwd = true
-					}
-				}
-			}
-			if fwd {
-				continue
-			}
 			blk := ret.Block()
-			cons := fmt.Sprintf("%s: session returned at %s", p.FnName(fn), p.InstrPos(ret))
-			var al *ssa.Alloc
-			var alC *rctx
-			nOrig := 0
 			var work []RV
 			work = append(work, rg.Origins(RV{V: v, C: act})...)
+			var origins []RV
+			unknown := false
 			for i := 0; i < len(work) && i < 16; i++ {
 				o := work[i]
-				if ld, ok := o.V.(*ssa.UnOp); ok {
-					// `session := &saml.Session{...}` whose address is also taken: a pointer variable assigned once
-					if pv, ok := ld.X.(*ssa.Alloc); ok {
-						if iv := initStore(pv); iv != nil {
-							work = append(work, rg.Origins(RV{V: iv, C: o.C})...)
+				if isNilConst(o.V) {
+					continue
+				}
+				// the result of a function (literal) that only ever returns nil (promptLogin := func(..) *Session {..; return nil})
+				if oc, ok := o.V.(*ssa.Call); ok {
+					if sc := oc.Call.StaticCallee(); sc != nil && len(sc.Blocks) > 0 {
+						allNil := true
+						for _, rt := range returnsOf(sc) {
+							if len(rt.Results) == 0 || !isNilConst(Resolve(rt.Results[0])) {
+								allNil = false
+							}
+						}
+						if allNil {
 							continue
 						}
 					}
 				}
-				nOrig++
-				if x, ok := o.V.(*ssa.Alloc); ok {
-					al, alC = x, o.C
-				}
-			}
-			if al == nil || nOrig != 1 {
-				r.Bad("C19.authn-gate", cons, p.InstrPos(ret), "a session value of unknown origin is returned")
-				continue
-			}
-			// is this object the target of the sessions Get?
-			isStored := false
-			if g := gets["sessions"]; g != nil {
-				if tgt := ifaceTarget(g.Call.Args[1]); tgt == ssa.Value(al) {
-					isStored = true
-				}
-			}
-			if isStored {
-				g := gets["sessions"]
-				gname := "isnil(" + getFC["sessions"].AP(g) + ")"
-				key := keyArgAP(g, getFC["sessions"])
-				okKey := strings.Contains(key, `Cookie(c:"session")`) && strings.Contains(key, ".Value")
-				var expAtom string
-				for _, name := range B.Support(fc.AbsCond(blk)) {
-					ai := a.Atoms[name]
-					if ai != nil && ai.Kind == "before" && ai.TT[0] != nil && strings.HasSuffix(ai.TT[0].Base, ".ExpireTime") {
-						expAtom = name
+				if ld, ok := o.V.(*ssa.UnOp); ok {
+					// `session := &saml.Session{...}` whose address is also taken: a pointer variable assigned once
+					if pv, ok := ld.X.(*ssa.Alloc); ok {
+						if iv := initStore(pv); iv != nil {
+							for _, o2 := range rg.Origins(RV{V: iv, C: o.C}) {
+								o2.Via = append(append([]RB{}, o.Via...), o2.Via...)
+								work = append(work, o2)
+							}
+							continue
+						}
 					}
 				}
-				okExp := false
-				why := []string{}
-				if expAtom != "" && implied(blk, B.Not(B.Var(expAtom))) {
-					tt := a.Atoms[expAtom].TT
-					src := valueSources(p, fn, tt[1].BaseV, 0, map[string]bool{})
-					if len(src) == 1 && src[0] == "call through saml.TimeNow" && len(tt[0].Coef) == 0 && len(tt[1].Coef) == 0 && tt[0].Const == 0 && tt[1].Const == 0 {
-						okExp = true
+				if _, ok := o.V.(*ssa.Alloc); ok {
+					origins = append(origins, o)
+				} else {
+					unknown = true
+				}
+			}
+			if len(origins) == 0 && !unknown {
+				continue // only nil reaches this return
+			}
+			if unknown {
+				r.Bad("C19.authn-gate", fmt.Sprintf("%s: session returned at %s", p.FnName(fn), p.InstrPos(ret)), p.InstrPos(ret), "a session value of unknown origin is returned")
+				continue
+			}
+			for _, org := range origins {
+				al, alC := org.V.(*ssa.Alloc), org.C
+				cons := fmt.Sprintf("%s: session %s returned at %s", p.FnName(fn), p.InstrPos(al), p.InstrPos(ret))
+				// the condition of the whole path of this object to this return
+				pathCond := fc.AbsCond(blk)
+				for _, vb := range org.Via {
+					vfc := rg.Ctx(a, vb.C)
+					vfc.ensureConds()
+					pathCond = B.And(pathCond, vfc.AbsCond(vb.B))
+				}
+				if pathCond == B.False {
+					continue
+				}
+				implied := func(_ *ssa.BasicBlock, f *bddNode) bool { return B.Implies(pathCond, f) }
+				// is this object the target of the sessions Get?
+				isStored := false
+				if g := gets["sessions"]; g != nil {
+					if tgt := ifaceTarget(g.Call.Args[1]); tgt == ssa.Value(al) {
+						isStored = true
+					}
+				}
+				if isStored {
+					g := gets["sessions"]
+					gname := "isnil(" + getFC["sessions"].AP(g) + ")"
+					key := keyArgAP(g, getFC["sessions"])
+					okKey := strings.Contains(key, `Cookie(c:"session")`) && strings.Contains(key, ".Value")
+					var expAtom string
+					for _, name := range B.Support(pathCond) {
+						ai := a.Atoms[name]
+						if ai != nil && ai.Kind == "before" && ai.TT[0] != nil && strings.HasSuffix(ai.TT[0].Base, ".ExpireTime") {
+							expAtom = name
+						}
+					}
+					okExp := false
+					why := []string{}
+					if expAtom != "" && implied(blk, B.Not(B.Var(expAtom))) {
+						tt := a.Atoms[expAtom].TT
+						src := valueSources(p, fn, tt[1].BaseV, 0, map[string]bool{})
+						if len(src) == 1 && src[0] == "call through saml.TimeNow" && len(tt[0].Coef) == 0 && len(tt[1].Coef) == 0 && tt[0].Const == 0 && tt[1].Const == 0 {
+							okExp = true
+						} else {
+							why = append(why, "the expiry comparison is not ExpireTime against TimeNow() exactly")
+						}
 					} else {
-						why = append(why, "the expiry comparison is not ExpireTime against TimeNow() exactly")
+						why = append(why, "the stored session is returned without (or regardless of) the expiry check")
 					}
+					okGet := B.HasVar(gname) && implied(blk, B.Var(gname))
+					if !okGet {
+						why = append(why, "the session is returned although the store lookup failed")
+					}
+					if !okKey {
+						why = append(why, "the store key is not built from the session cookie's value: "+key)
+					}
+					r.Check(okExp && okGet && okKey, "C19.authn-gate", cons+" (stored session)", p.InstrPos(ret), "store lookup by cookie value succeeded and session not expired", strings.Join(why, "; "))
+					continue
+				}
+				// freshly created session: must be behind the credential check
+				why := []string{}
+				ok := true
+				if cmp == nil {
+					ok = false
+					why = append(why, "no password comparison on the way to this return")
 				} else {
-					why = append(why, "the stored session is returned without (or regardless of) the expiry check")
-				}
-				okGet := B.HasVar(gname) && implied(blk, B.Var(gname))
-				if !okGet {
-					why = append(why, "the session is returned although the store lookup failed")
-				}
-				if !okKey {
-					why = append(why, "the store key is not built from the session cookie's value: "+key)
-				}
-				r.Check(okExp && okGet && okKey, "C19.authn-gate", cons+" (stored session)", p.InstrPos(ret), "store lookup by cookie value succeeded and session not expired", strings.Join(why, "; "))
-				continue
-			}
-			// freshly created session: must be behind the credential check
-			why := []string{}
-			ok := true
-			if cmp == nil {
-				ok = false
-				why = append(why, "no password comparison on the way to this return")
-			} else {
-				cname := "isnil(" + cmpFC.AP(cmp) + ")"
-				if !B.HasVar(cname) || !implied(blk, B.Var(cname)) {
-					ok = false
-					why = append(why, "a new session is returned on a path where the password comparison did not succeed: "+firstCube(B, B.And(fc.AbsCond(blk), B.Not(B.Var(cname)))))
-				}
-				hashAP := cmpFC.AP(cmp.Call.Args[0])
-				pwAP := cmpFC.AP(cmp.Call.Args[1])
-				if !strings.HasSuffix(hashAP, "User.HashedPassword") {
-					ok = false
-					why = append(why, "compared against "+hashAP+" instead of the stored hash")
-				}
-				if !strings.Contains(pwAP, `PostForm.Get(c:"password")`) {
-					ok = false
-					why = append(why, "compared with "+pwAP+" instead of the posted password")
-				}
-				g := gets["users"]
-				if g == nil {
-					ok = false
-					why = append(why, "the user record is not fetched from the store")
-				} else {
-					gname := "isnil(" + getFC["users"].AP(g) + ")"
-					if !B.HasVar(gname) || !implied(blk, B.Var(gname)) {
+					cname := "isnil(" + cmpFC.AP(cmp) + ")"
+					if !B.HasVar(cname) || !implied(blk, B.Var(cname)) {
 						ok = false
-						why = append(why, "the session is created although fetching the user failed")
+						why = append(why, "a new session is returned on a path where the password comparison did not succeed: "+firstCube(B, B.And(pathCond, B.Not(B.Var(cname)))))
 					}
-					key := keyArgAP(g, getFC["users"])
-					if !strings.Contains(key, `PostForm.Get(c:"user")`) {
+					hashAP := cmpFC.AP(cmp.Call.Args[0])
+					pwAP := cmpFC.AP(cmp.Call.Args[1])
+					if !strings.HasSuffix(hashAP, "User.HashedPassword") {
 						ok = false
-						why = append(why, "user fetched under key "+key)
+						why = append(why, "compared against "+hashAP+" instead of the stored hash")
 					}
-					// the hash compared belongs to the fetched record
-					if tgt := ifaceTarget(g.Call.Args[1]); tgt == nil || !strings.HasPrefix(hashAP, getFC["users"].AP(tgt)) {
+					if !strings.Contains(pwAP, `PostForm.Get(c:"password")`) {
 						ok = false
-						why = append(why, "the hash compared does not belong to the fetched user record")
+						why = append(why, "compared with "+pwAP+" instead of the posted password")
+					}
+					g := gets["users"]
+					if g == nil {
+						ok = false
+						why = append(why, "the user record is not fetched from the store")
+					} else {
+						gname := "isnil(" + getFC["users"].AP(g) + ")"
+						if !B.HasVar(gname) || !implied(blk, B.Var(gname)) {
+							ok = false
+							why = append(why, "the session is created although fetching the user failed")
+						}
+						key := keyArgAP(g, getFC["users"])
+						if !strings.Contains(key, `PostForm.Get(c:"user")`) {
+							ok = false
+							why = append(why, "user fetched under key "+key)
+						}
+						// the hash compared belongs to the fetched record
+						if tgt := ifaceTarget(g.Call.Args[1]); tgt == nil || !strings.HasPrefix(hashAP, getFC["users"].AP(tgt)) {
+							ok = false
+							why = append(why, "the hash compared does not belong to the fetched user record")
+						}
+					}
+					// no bypass: the only atoms on the path besides the three above must not mention the hash or its length
+					for _, name := range B.Support(pathCond) {
+						if strings.Contains(name, "HashedPassword") {
+							ok = false
+							why = append(why, "the decision also depends on "+name+" (a bypass on the stored hash)")
+						}
 					}
 				}
-				// no bypass: the only atoms on the path besides the three above must not mention the hash or its length
-				for _, name := range B.Support(fc.AbsCond(blk)) {
-					if strings.Contains(name, "HashedPassword") {
-						ok = false
-						why = append(why, "the decision also depends on "+name+" (a bypass on the stored hash)")
+				r.Check(ok, "C19.authn-gate", cons+" (new session)", p.InstrPos(ret), "behind store lookup of the posted user and bcrypt comparison with the posted password", strings.Join(why, "; "))
+				// session fields (the literal may sit in a constructor helper handed the user record)
+				lfc := rg.Ctx(a, alC)
+				for field, sts := range litFields(al.Parent(), modPath, "Session") {
+					for _, st := range sts {
+						if rootOfAddr(st.Addr) != ssa.Value(al) {
+							continue
+						}
+						ap := lfc.AP(st.Val)
+						c2 := fmt.Sprintf("%s: new session field %s", p.FnName(al.Parent()), field)
+						okF := strings.HasPrefix(ap, "User.") || strings.Contains(ap, "/User.") || strings.Contains(ap, "randomBytes") || strings.Contains(ap, "TimeNow") || strings.HasPrefix(ap, "c:")
+						if field == "ID" || field == "Index" {
+							okF = strings.Contains(ap, "randomBytes")
+						}
+						r.Check(okF, "C19.session-source", c2, p.InstrPos(st), ap, "session field "+field+" is taken from "+ap+" (expected the stored user record / fresh randomness / the clock)")
 					}
 				}
-			}
-			r.Check(ok, "C19.authn-gate", cons+" (new session)", p.InstrPos(ret), "behind store lookup of the posted user and bcrypt comparison with the posted password", strings.Join(why, "; "))
-			// session fields (the literal may sit in a constructor helper handed the user record)
-			lfc := rg.Ctx(a, alC)
-			for field, sts := range litFields(al.Parent(), modPath, "Session") {
-				for _, st := range sts {
-					if rootOfAddr(st.Addr) != ssa.Value(al) {
-						continue
+				// and what is stored under /sessions/<id> is this session, error checked
+				for _, pc := range rg.all {
+					pfc := rg.Ctx(a, pc)
+					for _, b := range pc.fn.Blocks {
+						for _, in := range b.Instrs {
+							c, okc := in.(*ssa.Call)
+							if !okc || storeCallKind(&c.Call) != "Put" {
+								continue
+							}
+							pname := "isnil(" + pfc.AP(c) + ")"
+							r.Check(B.HasVar(pname) && implied(blk, B.Var(pname)), "C19.authn-gate", p.FnName(fn)+": new session returned only after it was stored", p.InstrPos(c), "Put == nil", "a session that failed to be stored is still returned")
+						}
 					}
-					ap := lfc.AP(st.Val)
-					c2 := fmt.Sprintf("%s: new session field %s", p.FnName(al.Parent()), field)
-					okF := strings.HasPrefix(ap, "User.") || strings.Contains(ap, "/User.") || strings.Contains(ap, "randomBytes") || strings.Contains(ap, "TimeNow") || strings.HasPrefix(ap, "c:")
-					if field == "ID" || field == "Index" {
-						okF = strings.Contains(ap, "randomBytes")
-					}
-					r.Check(okF, "C19.session-source", c2, p.InstrPos(st), ap, "session field "+field+" is taken from "+ap+" (expected the stored user record / fresh randomness / the clock)")
-				}
-			}
-			// and what is stored under /sessions/<id> is this session, error checked
-			for _, b := range fn.Blocks {
-				for _, in := range b.Instrs {
-					c, okc := in.(*ssa.Call)
-					if !okc || storeCallKind(&c.Call) != "Put" {
-						continue
-					}
-					pname := "isnil(" + fc.AP(c) + ")"
-					r.Check(B.HasVar(pname) && implied(blk, B.Var(pname)), "C19.authn-gate", p.FnName(fn)+": new session returned only after it was stored", p.InstrPos(c), "Put == nil", "a session that failed to be stored is still returned")
 				}
 			}
 		}
@@ -390,6 +421,10 @@ func checkSSOGate(r *Report, p *Prog) {
 	// shortcut launch
 	fn := p.MustFunc("samlidp", "Server", "HandleIDPInitiated")
 	a := NewAnalysis(p)
+	// a helper that fetches the shortcut is part of the handler: its error is the store's error, its result the record
+	a.Inline = func(f *ssa.Function) bool {
+		return inPkg(f, modPath+"/samlidp") && p.InLibrary(f) && f != fn && (f.Object() == nil || !f.Object().Exported()) && errIndex(f) >= 0
+	}
 	B := a.B
 	fc := a.Ctx(fn)
 	fc.ensureConds()
@@ -1241,6 +1276,11 @@ func checkKeyAgreement(r *Report, p *Prog) {
 					if ld, ok := dk.(*ssa.UnOp); ok {
 						// *p with p a pointer handed to the helper: the address it was given
 						cands = append(cands, rg.Origins(RV{V: ld.X, C: d.C})...)
+					}
+					// a field of the record a pointer refers to (replaced.Metadata.EntityID): the record the pointer was
+					// obtained from (a loader helper's result handed to a registering helper)
+					if root := rootOfAddr(dk); root != dk {
+						cands = append(cands, rg.Origins(RV{V: root, C: d.C})...)
 					}
 					for _, o := range cands {
 						if o.C == g.C && (rootOfAddr(o.V) == rootOfAddr(target) || derivesFrom(o.V, target, 0)) {
